@@ -13,13 +13,14 @@ import vlib
 def main():
     ap = argparse.ArgumentParser()
     ap.add_argument("prop"); ap.add_argument("hk"); ap.add_argument("--tier", default="quick")
+    ap.add_argument("--sse", default=None, help="C20: another `sse` binary (default: the one built from /repo by the last bin/check C20)")
     a = ap.parse_args()
     os.chdir(vlib.VERIF)
     ctx = vlib.Ctx(a.prop, a.tier, int(os.environ.get("VERIF_SEED", "20260929")))
     ctx.replay = None
     hk = os.path.abspath(a.hk)
     def build_harness(features, bins=("hk",)):
-        ctx.bins = {"hk": hk}
+        ctx.bins = {"hk": hk, "sse": os.path.abspath(a.sse) if a.sse else os.path.join(vlib.CACHE, "bin", f"sse-{a.prop}")}
         return True
     ctx.build_harness = build_harness
     ctx.translate = lambda needed: True
